@@ -11,11 +11,16 @@
      element-wise path, likewise (C13_vector_elements_…, C13_vector_equality_elementwise_…).
    * for arbitrary memory contents: == is reflexive and symmetric on vectors and references,
      != is its negation.
-   PARTIAL: the whole-buffer fast path of vector == (all value types memcmp-able, no padding
-   possible, equal fixed sizes) is modelled and tied to the code but "buffers equal iff
-   lists equal" is not a theorem (Rep does not record that elements are packed without
-   gaps).  The attempt to prove it exposed a genuine defect - vectors of zero-byte elements
-   compare equal whatever their size - which is repaired (DESIGN.md, section 7, F28). *)
+   * the whole-buffer fast path of vector == (all value types memcmp-able, no padding possible,
+     equal fixed sizes) as well: tight packing is part of the representation invariant, so the
+     buffers are the concatenation of the elements' bytes, which determine the tuples
+     (C13_vector_equality_fast_path_is_content_equality; both paths:
+     C13_vector_equality_is_content_equality).  The first attempt to prove it exposed a
+     genuine defect - vectors of zero-byte elements compare equal whatever their size - which
+     is repaired (DESIGN.md, section 7, F28).
+   * lists with floating-point fields: equality is field-wise equality under the value type's
+     own == (C13_reference_equality_is_field_equivalence); the tuple-identity statements carry
+     the hypothesis noflt L. *)
 From Coq Require Import ZArith List Bool.
 From Cntgs Require Import Base Layout Mem Vector Proxy World Spec Rep CompareThm ElemThm CmpContent FastEq.
 Import ListNotations.
